@@ -155,7 +155,7 @@ Print Assumptions C19_ratio_to_sf_nearest.
    binary64 x: x is +-0 and V = 0, or x = m * 2^e > 0 and
         (x - ulp/2)^2 <= V / D <= (x + ulp/2)^2         (ulp = 2^e),
    written with F = x * 2^1074, U = 2^e * 2^1074:   (2F - U)^2 D <= V 2^2150 <= (2F + U)^2 D;
-   i.e. sqrt(V/D) lies within half an ulp of x.  (At m = 2^52 the spacing below x is ulp/2, so the lower end admits the
+   i.e. sqrt(V/D) lies within half an ulp of x.  (At m = 2^52 the spacing below x is ulp/2, so the lower end accepts the
    neighbour below as well: the test is the half-ulp bracket, not "nearest among all", there.) *)
 Theorem C19_measure_stddev : forall vs ds, dyadics vs = Some ds -> vs <> [] ->
   let n := Z.of_nat (length vs) in
@@ -182,7 +182,7 @@ Print Assumptions C19_measure_stddev_meaning.
    (x + g)/2 lies on the far side of sqrt(V/D) — g > x: V/D <= ((x+g)/2)^2;  g < x: ((x+g)/2)^2 <= V/D — so x is at least as close
    to the square root as g (and a negative g is farther than 0).  No square roots, no reals: F = x 2^1074, G = g 2^1074.
    Excluded (`_off_binade_boundary`): m = 2^52 above the subnormal range, where the float below x is only ulp/2 away and the
-   bracket — the model's test — admits it too. *)
+   bracket — the model's test — accepts it too. *)
 Theorem C19_measure_stddev_nearest_off_binade_boundary : forall m e num den g, 0 < den ->
   valid_binary prec emax (S754_finite false m e) = true -> (Zpos m <> 2 ^ 52 \/ e = -1074) ->
   sqrt_is (S754_finite false m e) num den = true ->
